@@ -6,43 +6,49 @@
  *   myth_create_join_various_ex_body   against the contract proved for aux
  *   myth_create_join_many_ex_body      against the contract proved for various_ex_body (many = various, func stride 0)
  *
- * The universe of one check (assigned once by the harness, never written afterwards -- global invariants):
- *   five user arrays, each its own object:  ARGS (only addresses are taken), FUNCS (read), ATTRS (only addresses),
- *   RES (written), IDS (written);  g_res / g_ids / g_attrs = base pointer or NULL;  strides g_as, g_fs, g_ts, g_rs, g_is.
- *   FUNCS is an array of myth_func_t cells: func stride 0 -> the one function f = F_watch in cell 0;
- *   func stride >= 8 (multiple of 8: a myth_func_t slot must be aligned) -> cell of item g_w holds F_watch, every
- *   other cell F_other.
- * Witness g_w >= 0 (chosen before the call; the code cannot see it), IDENT = (arg stride >= 1 || func stride >= 8):
+ * The UNIVERSE of one check (assigned once by the harness, in no assigns clause, hence invariant):
+ *   five user arrays, each its own object of ASZ bytes: ARGS (only addresses are taken), FUNCS (read), ATTRS (only
+ *   addresses), RES (written), IDS (written);  g_res / g_ids / g_attrs = base pointer or NULL;  strides g_as, g_fs,
+ *   g_ts, g_rs, g_is: args/attrs any, funcs 0 or >= 8, results/ids >= 8 when given (slots do not overlap), every
+ *   item of [0, g_hb) inside its array.
+ *   The function table DEFINES f_i: f_{g_w} = F_watch and f_i = F_other for i != g_w (func stride >= 8); the one
+ *   shared f = F_watch (func stride 0).  This is a universally quantified fact about user memory that nobody writes;
+ *   h_aux assumes its instance at the only slot the call under proof can read itself (slot g_ha, read when the range
+ *   is the single item g_ha) -- a weaker hypothesis than the quantified one.
+ * Witness g_w >= 0 (chosen before the call; the code cannot see it).  IDENT = (arg stride >= 1 || func stride >= 8):
  *   the call of item g_w is recognisable (by its argument address g_warg = ARGS + g_w*g_as, or by its function).
- *   F_watch/F_other are the user's functions (harness stubs): they count.
- *     g_count  number of user-function calls                                  -> + (b - a)           exactly n calls
+ *   F_watch / F_other are the user's functions (harness stubs); they only count:
+ *     g_count  number of user-function calls                                  -> + (b - a)             exactly n calls
  *     g_calls  number of calls F_watch(g_warg)                                -> + 1 iff a <= g_w < b  (IDENT)
- *     g_bad    F_other got g_warg (arg stride >= 1: item g_w given to a function that is not f_{g_w}), or
- *              F_watch got another address although only item g_w has it (func stride >= 8)   -> stays 0
+ *     g_bad    F_other got g_warg (arg stride >= 1: item g_w handed to a function that is not f_{g_w}), or
+ *              F_watch got another address although only item g_w has it (func stride >= 8)             -> stays 0
  *     g_wid    myth_self() at the instant of the call F_watch(g_warg): the thread that ran item g_w
  *   results: slot g_w == g_ret (what F_watch(g_warg) returned) iff in range, else unchanged;  ids: slot g_w == g_wid.
- *   Frame: ghost guard bytes RES[g_gro] / IDS[g_gio], g_gro = g_gri*g_rs + g_grd an ARBITRARY byte of RES: unchanged
- *   unless it belongs to the slot of an item in [a, b) (g_gri in [a,b) and g_grd < 8); everything when the array is
- *   not given.  ARGS, FUNCS, ATTRS: not in any assigns clause.  The leaf's assigns clause is exactly its two slots.
- * Threads: myth_create_ex_body / myth_join_body are replaced by contracts (ASSUMED, C01 + induction hypothesis):
+ *   Frame: guard bytes RES[g_gro] / IDS[g_gio] with g_gro = g_gri*g_rs + g_grd (0 <= g_grd < g_rs) an ARBITRARY byte of
+ *   the array: unchanged unless it lies in the slot of an item of [a, b) (a <= g_gri < b and g_grd < 8); every byte
+ *   when the array is not given.  ARGS, FUNCS, ATTRS are in no assigns clause.
+ * Threads: myth_create_ex_body / myth_join_body are replaced by contracts (ASSUMED: C01 + induction hypothesis):
  *   create requires func == aux, an argument block satisfying aux's precondition for a STRICTLY SMALLER range, the
- *   attribute slot of the first item of that range (or NULL); records the child (g_ca, g_cb, token), g_pending + 1.
- *   join requires that token while it is outstanding, g_pending - 1, and has the effect of aux's postcondition on
- *   [g_ca, g_cb): a created-and-joined thread running aux(arg) has run aux(arg) exactly once, complete at join.
+ *   attribute slot of the first item of that range (or NULL); it records the child (g_ca, g_cb, token), g_pending + 1.
+ *   join requires that token while outstanding, g_pending - 1, and grants aux's postcondition for [g_ca, g_cb):
+ *   a created-and-joined thread running aux(arg) has run aux(arg) exactly once, complete when join returns (not before).
  *   The right half runs while the left child is outstanding (g_pending == g_p0 + 1): outstanding children are a counter.
- * Measure: ghost g_in_body is set at the first statement of aux's body (one-line ghost hook inserted by a recorded
- *   must-fire rewrite, no other change of the text); a call from inside the body must have b - a < g_hb - g_ha
- *   (the range of the call under proof) and lie within it: decreases b - a.
+ * Measure: ghost g_in_body is set at the first statement of aux's body (one-line ghost hook put there by a recorded
+ *   must-fire rewrite, no other change of the text); a call from inside the body must lie within [g_ha, g_hb) (the
+ *   range of the call under proof) and have b - a < g_hb - g_ha: decreases b - a.
+ * Arithmetic: the only non-linear facts needed are instances of  x < y && s >= 0 ==> x*s + s <= y*s  (distinct items
+ *   have disjoint slots).  SAT cannot prove that beyond ~9 bits; it is proved over the mathematical integers by job
+ *   c17.lemma.mono (z3) and its instances for x = g_ha are assumed in h_aux (operands < 2^31: no overflow).
  */
 #include "verif_common.h"
 #include <limits.h>
 #include <stdlib.h>
 
 #ifndef ASZ
-#define ASZ 4096                       /* size in bytes of each user array (BOUND of the harness memory, see units/c17.py) */
+#define ASZ (1L << 30)                 /* size in bytes of each user array (the harness memory; see units/c17.py) */
 #endif
-#define NFC (ASZ / 8)
-#define SMALL(x) (((unsigned long)(x) & ~(unsigned long)(2 * ASZ - 1)) == 0)   /* redundant bit-level form of 0 <= x < 2*ASZ (helps the SAT solver) */
+#define SMALL(x) (((unsigned long)(x) & ~(unsigned long)(2 * ASZ - 1)) == 0)   /* bit-level form of 0 <= x < 2*ASZ: products of two such values do not overflow */
+#define PROD(i, s) ((long)((unsigned long)(i) * (unsigned long)(s)))            /* i*s exactly as the library computes it (long * size_t) */
 
 /* ------------------------------------------------------------------ ghosts */
 long   g_w;                            /* witness item */
@@ -60,7 +66,7 @@ long   g_ca, g_cb;                     /* range of the outstanding child of this
 long   g_gri, g_grd, g_gro, g_gii, g_gid, g_gio;     /* guard bytes */
 
 char   ARGS[ASZ];
-void * (*FUNCS[NFC])(void *);
+char   FUNCS[ASZ];
 char   ATTRS[ASZ];
 char   RES[ASZ];
 char   IDS[ASZ];
@@ -98,20 +104,25 @@ static void * F_other(void * arg) {
 #define STRIDE_OK(s, min)  ((s) >= (min) && (s) <= ASZ && SMALL(s))
 /* the universe is well formed: every item of [0, g_hb) has its slots inside the arrays; slots of results / ids / funcs
    are aligned cells of 8 bytes that do not overlap (stride >= 8, multiple of 8) */
-#define FITS(s, w)   ((s) == 0 || (g_hb <= ASZ && SMALL(g_hb) && SMALL(g_ha) && (g_hb - 1) * (long)(s) + (w) <= ASZ))
+#define FITS(s, w)   ((s) == 0 || (1 <= g_hb && g_hb <= ASZ && SMALL(g_hb) && SMALL(g_ha) && SMALL(s) && PROD(g_hb - 1, s) + (w) <= ASZ))
 #define CONFIG_OK \
   (0 <= g_ha && g_ha <= g_hb && g_hb <= LONG_MAX / 2 && 0 <= g_w && \
-   g_as <= ASZ && SMALL(g_as) && FITS(g_as, 1) && \
-   (g_fs == 0 || (STRIDE_OK(g_fs, 8) && g_fs % 8 == 0)) && FITS(g_fs, 8) && \
-   (g_attrs == 0 || (g_attrs == (void *)ATTRS && g_ts <= ASZ && SMALL(g_ts) && FITS(g_ts, 1))) && \
-   (g_res == 0 || (g_res == (void *)RES && STRIDE_OK(g_rs, 8) && g_rs % 8 == 0 && FITS(g_rs, 8))) && \
-   (g_ids == 0 || (g_ids == (void *)IDS && STRIDE_OK(g_is, 8) && g_is % 8 == 0 && FITS(g_is, 8))) && \
-   g_warg == (g_w < g_hb ? (g_as == 0 ? (void *)ARGS : (void *)(ARGS + g_w * (long)g_as)) : (void *)0) && \
-   g_wro == ((g_w < g_hb && g_res != 0) ? g_w * (long)g_rs : 0) && g_wio == ((g_w < g_hb && g_ids != 0) ? g_w * (long)g_is : 0) && \
+   (g_hb == 0 || ( \
+   g_as <= ASZ && FITS(g_as, 1) && \
+   (g_fs == 0 || STRIDE_OK(g_fs, 8)) && FITS(g_fs, 8) && \
+   (g_attrs == 0 || (g_ts <= ASZ && FITS(g_ts, 1))) && \
+   (g_res == 0 || (STRIDE_OK(g_rs, 8) && FITS(g_rs, 8))) && \
+   (g_ids == 0 || (STRIDE_OK(g_is, 8) && FITS(g_is, 8))))) && \
+   (g_attrs == 0 || g_attrs == (void *)ATTRS) && (g_res == 0 || g_res == (void *)RES) && (g_ids == 0 || g_ids == (void *)IDS) && \
+   g_warg == (g_w < g_hb ? (g_as == 0 ? (void *)ARGS : (void *)(ARGS + PROD(g_w, g_as))) : (void *)0) && \
+   g_wro == ((g_w < g_hb && g_res != 0) ? PROD(g_w, g_rs) : 0) && g_wio == ((g_w < g_hb && g_ids != 0) ? PROD(g_w, g_is) : 0) && \
    0 <= g_gro && g_gro < ASZ && 0 <= g_gio && g_gio < ASZ && 0 <= g_gri && 0 <= g_grd && 0 <= g_gii && 0 <= g_gid && \
-   (g_res != 0 ==> (g_grd < (long)g_rs && g_gri <= ASZ && g_gro == g_gri * (long)g_rs + g_grd)) && \
-   (g_ids != 0 ==> (g_gid < (long)g_is && g_gii <= ASZ && g_gio == g_gii * (long)g_is + g_gid)) && \
+   (g_res != 0 && g_hb != 0 ==> (g_grd < (long)g_rs && g_gri <= ASZ && SMALL(g_gri) && g_gro == PROD(g_gri, g_rs) + g_grd)) && \
+   (g_ids != 0 && g_hb != 0 ==> (g_gid < (long)g_is && g_gii <= ASZ && SMALL(g_gii) && g_gio == PROD(g_gii, g_is) + g_gid)) && \
    g_ret != g_ret_o && g_self == (void *)&THR[0])
+/* instances of the lemma  x < y && s >= 0 ==> x*s + s <= y*s  (job c17.lemma.mono) for operands below 2*ASZ = 2^31 */
+#define MONO1(x, y, s) ((x) < (y) ==> PROD(x, s) + (long)(s) <= PROD(y, s))
+#define MONO(x, y, s)  ((SMALL(x) && SMALL(y) && SMALL(s)) ==> (MONO1(x, y, s) && MONO1(y, x, s)))
 /* the argument block of a call of aux describes the universe and a non-empty sub-range */
 #define BLOCK_OK(m) \
   (MA(m)->ids == g_ids && MA(m)->attrs == g_attrs && MA(m)->args == (void *)ARGS && MA(m)->results == g_res && \
@@ -123,7 +134,7 @@ static void * F_other(void * arg) {
    (STRIDED ==> (SMALL(MA(m)->a) && SMALL(MA(m)->b))))
 #define GHOSTS_OK \
   (0 <= g_c0 && g_c0 <= LONG_MAX / 2 && g_c0 <= g_count && g_count <= g_c0 + (g_hb - g_ha) && g_bad == 0 && 0 <= g_calls && g_calls <= 1 && \
-   g_p0 >= 0 && g_p0 <= 1000 && g_p0 <= g_pending && g_pending <= g_p0 + 1)
+   g_p0 >= 0 && g_p0 <= LONG_MAX / 2 && g_p0 <= g_pending && g_pending <= g_p0 + 1)
 #define SMALLER(a, b) ((b) - (a) < g_hb - g_ha)
 
 /* effect of running every item of [a, b) exactly once, as a list of ensures clauses; OLD(x) = value of x before */
@@ -169,7 +180,7 @@ int create_contract(myth_thread_t * id, myth_thread_attr_t * attr, myth_func_t f
   __CPROVER_requires(__CPROVER_r_ok(MA(arg), sizeof(myth_create_join_various_arg)) && BLOCK_OK(arg))
   __CPROVER_requires(SMALLER(MA(arg)->a, MA(arg)->b))
   __CPROVER_requires(g_pending == g_p0)                                    /* this level has no child outstanding */
-  __CPROVER_requires(attr == (g_attrs ? (myth_thread_attr_t *)(ATTRS + MA(arg)->a * (long)g_ts) : (myth_thread_attr_t *)0))
+  __CPROVER_requires(attr == (g_attrs ? (myth_thread_attr_t *)(ATTRS + PROD(MA(arg)->a, g_ts)) : (myth_thread_attr_t *)0))
   __CPROVER_assigns(*id, g_pending, g_ca, g_cb)
   __CPROVER_ensures(__CPROVER_return_value == 0 && *id == (myth_thread_t)&THR[1])
   __CPROVER_ensures(g_pending == g_p0 + 1 && g_ca == OLD(MA(arg)->a) && g_cb == OLD(MA(arg)->b));
@@ -216,7 +227,6 @@ void * (*keep_aux)(void *) = myth_create_join_various_ex_aux;
 myth_create_join_various_arg H_ARG;
 
 static void setup(void) {
-  long i;
   g_is = nondet_ulong(); g_ts = nondet_ulong(); g_fs = nondet_ulong(); g_as = nondet_ulong(); g_rs = nondet_ulong();
   g_ids = nondet_bool() ? (void *)IDS : 0;
   g_attrs = nondet_bool() ? (void *)ATTRS : 0;
@@ -226,24 +236,28 @@ static void setup(void) {
   g_ret_o = g_ret ? (nondet_bool() ? (void *)&RETCELL[1] : 0) : (void *)&RETCELL[1];
   g_self = (void *)&THR[0];
   g_wid = 0; g_calls = 0; g_bad = 0; g_in_body = 0; g_ca = 0; g_cb = 0;
-  g_p0 = nondet_long(); __CPROVER_assume(0 <= g_p0 && g_p0 <= 1000); g_pending = g_p0;
+  g_p0 = nondet_long(); __CPROVER_assume(0 <= g_p0 && g_p0 <= LONG_MAX / 2); g_pending = g_p0;
   g_gri = nondet_long(); g_grd = nondet_long(); g_gro = nondet_long();
   g_gii = nondet_long(); g_gid = nondet_long(); g_gio = nondet_long();
   g_warg = 0; g_wro = nondet_long(); g_wio = nondet_long();
   g_c0 = nondet_long(); __CPROVER_assume(0 <= g_c0 && g_c0 <= LONG_MAX / 2); g_count = g_c0;
-  __CPROVER_assume(0 <= g_w && 0 <= g_ha && 0 <= g_hb && g_as <= ASZ);
-  __CPROVER_assume(FITS(g_as, 1));
-  if (g_w < g_hb) g_warg = (g_as == 0) ? (void *)ARGS : (void *)(ARGS + g_w * (long)g_as);
+  __CPROVER_assume(0 <= g_w && 0 <= g_ha && g_ha <= g_hb && g_hb <= LONG_MAX / 2);
+  __CPROVER_assume(g_hb == 0 || (g_as <= ASZ && FITS(g_as, 1)));
+  if (g_w < g_hb) g_warg = (g_as == 0) ? (void *)ARGS : (void *)(ARGS + PROD(g_w, g_as));
   __CPROVER_assume(CONFIG_OK);
-  /* function table: stride 0 -> the single f; otherwise item g_w has F_watch, every other cell F_other */
-  for (i = 0; i < NFC; i++) FUNCS[i] = (g_fs == 0) ? F_watch : F_other;
-  if (g_fs != 0 && g_w < g_hb) FUNCS[g_w * (long)(g_fs / 8)] = F_watch;
-  /* RES / IDS: arbitrary content (static objects start nondet under --dfcc) */
+  /* ARGS / FUNCS / ATTRS / RES / IDS: arbitrary content (static objects start nondet under --dfcc) */
 }
 
+#define FUNCSLOT(i) (*(myth_func_t *)(FUNCS + PROD(i, g_fs)))
 void h_aux(void) {
   setup();
   __CPROVER_assume(g_ha < g_hb);
+  /* f_i is what the table holds (definition); instance for the one slot this call can read itself */
+  __CPROVER_assume(FUNCSLOT(g_ha) == ((g_fs == 0 || g_ha == g_w) ? F_watch : F_other));
+  /* lemma instances (distinct items have disjoint slots; the last item bounds every item) */
+  __CPROVER_assume(MONO(g_ha, g_hb - 1, g_as) && MONO(g_ha, g_hb - 1, g_fs) && MONO(g_ha, g_hb - 1, g_rs) && MONO(g_ha, g_hb - 1, g_is));
+  __CPROVER_assume(g_w < g_hb ==> (MONO(g_ha, g_w, g_as) && MONO(g_ha, g_w, g_fs) && MONO(g_ha, g_w, g_rs) && MONO(g_ha, g_w, g_is)));
+  __CPROVER_assume(MONO(g_ha, g_gri, g_rs) && MONO(g_ha, g_gii, g_is));
   H_ARG.ids = g_ids; H_ARG.attrs = g_attrs; H_ARG.funcs = (void *)FUNCS; H_ARG.args = (void *)ARGS; H_ARG.results = g_res;
   H_ARG.id_stride = g_is; H_ARG.attr_stride = g_ts; H_ARG.func_stride = g_fs; H_ARG.arg_stride = g_as; H_ARG.result_stride = g_rs;
   H_ARG.a = g_ha; H_ARG.b = g_hb;
@@ -264,5 +278,14 @@ void h_many(void) {
   __CPROVER_assume(g_ha == 0 && g_fs == 0);
   myth_create_join_many_ex_body((myth_thread_t *)g_ids, (myth_thread_attr_t *)g_attrs, F_watch, (void *)ARGS, g_res,
                                 g_is, g_ts, g_as, g_rs, g_hb);
+  VERIF_CANARY();
+}
+
+/* the arithmetic lemma behind MONO, over the mathematical integers (SMT back end) */
+__CPROVER_integer nondet_integer(void);
+void h_lemma_mono(void) {
+  __CPROVER_integer x = nondet_integer(), y = nondet_integer(), st = nondet_integer();
+  __CPROVER_assume(0 <= x && x < y && st >= 0);
+  __CPROVER_assert(x * st + st <= y * st, "C17 lemma: x < y and s >= 0 imply x*s + s <= y*s (slots of distinct items are disjoint)");
   VERIF_CANARY();
 }
